@@ -119,7 +119,11 @@ pub fn run_case(ctx: &mut Ctx, case: &Value, c09: bool) {
         let m = ctx.driver.ask(&json!({"op":"flow","entry":"holder_build","token":ic.token,"jwt_ok":true,"redacted":r,
             "kb_params":{"aud":AUD,"alg":kb_alg_name},"nonce":nonce,"now":iat}));
         let mk = &m["ok"]["kb"];
-        if m["ok"]["prefix"].as_str() != Some(&prefix) || mk["sd_hash"] != kc["sd_hash"] || mk["aud"] != kc["aud"] || mk["nonce"] != kc["nonce"] || mk["iat"] != kc["iat"] || mk["typ"] != kh["typ"] || mk["alg"] != kh["alg"] {
+        // the model fixes an order of the disclosures, the property does not: when only the order differs, the
+        // model's sd_hash is over another string, and the real one was compared with the driver's hash above
+        let exact = m["ok"]["prefix"].as_str() == Some(&prefix);
+        if !exact { ctx.report.bump("presentation:disclosures-in-other-order-than-model"); }
+        if m["ok"]["prefix"].as_str().map(canon_prefix) != Some(canon_prefix(&prefix)) || (exact && mk["sd_hash"] != kc["sd_hash"]) || mk["aud"] != kc["aud"] || mk["nonce"] != kc["nonce"] || mk["iat"] != kc["iat"] || mk["typ"] != kh["typ"] || mk["alg"] != kh["alg"] {
             ctx.report.diff("correspondence", "Holder::build", "Holder::build:kb-differs-from-model", case, json!({"real": {"prefix": prefix, "header": kh, "claims": kc}, "model": m}));
         }
         // the signature verifies under the bound key: through the library's decode, and through verify_kb
@@ -136,7 +140,7 @@ pub fn run_case(ctx: &mut Ctx, case: &Value, c09: bool) {
         ctx.report.bump("kb-jwts-checked");
     }
     { let mut n = nonces.clone(); n.sort(); n.dedup(); if n.len() != nonces.len() { ctx.report.diff("property", "Holder::build", "Holder::build:nonce-repeats", case, json!({"nonces": nonces})); } }
-    if prefixes.iter().any(|p| p != &prefixes[0]) {
+    if prefixes.iter().any(|p| canon_prefix(p) != canon_prefix(&prefixes[0])) {
         ctx.report.diff("property", "Holder::build", "Holder::build:repeat-changes-disclosures", case, json!({"prefixes": prefixes}));
     }
     if c09 {
